@@ -10,7 +10,7 @@ for d in ${SEEDS:-seeded/*/}; do
     checks=$(python3 -c "import json;m=json.load(open('$d/meta.json'));print(' '.join(sorted(set(c.split(':')[0] for c in m['not_caught_by'][0].replace(',',' ').split() if c.startswith('C')))))")
     expect=0
   else
-    checks=$(python3 -c "import json;m=json.load(open('$d/meta.json'));import re;print(' '.join(sorted(set(re.match(r'C[0-9][0-9]',c).group(0) for c in m['caught_by'] if re.match(r'C[0-9][0-9]:',c)))))")
+    checks=$(python3 -c "import json;m=json.load(open('$d/meta.json'));import re;print(' '.join(sorted(set(re.match(r'C[0-9][0-9]',c).group(0) for c in m['caught_by'] if re.match(r'C[0-9][0-9]:'+'$tier',c)))))")
     expect=1
   fi
   out=$(tools/try_seed_isolated.sh $d/patch.diff $tier $checks 2>&1 | grep -aE "^== " | tr '\n' ' ')
